@@ -305,6 +305,22 @@ def variant(t, rnd, miss):
     return walk(t)
 
 
+def swap_symmetric(cmds, fmt):
+    """the model's values hold the operands of a symmetric statement as a set; the real value stores them in the order it was built:
+    every adversarial-name command whose term is a symmetric statement is also issued with the operands the other way round"""
+    extra = []
+    for line in open(cmds, encoding="utf-8"):
+        c = json.loads(line)
+        v = c.get("v", {})
+        if "adversarial" in c and v.get("kind") == "term" and v["v"].get("k") in SYMMETRIC and "a" in v["v"]:
+            d = json.loads(line)
+            d["v"]["v"]["a"], d["v"]["v"]["b"] = v["v"]["b"], v["v"]["a"]
+            extra.append(json.dumps(d, ensure_ascii=False))
+    with open(cmds, "a", encoding="utf-8") as g:
+        for x in extra:
+            g.write(x + "\n")
+
+
 # ------------------------------------------------------------------------------------------------ C01
 def nontrivial_value(c):
     v = c.get("v", {})
@@ -320,7 +336,7 @@ def plan_c01(K, ctx):
     K.parallel([(lambda f=f: K.pipeline(ctx, f, "c01", "MC_C01", cfg, "J_C01", nontrivial_value, workers=5,
                                         shards=5 if ctx.tier == "thorough" else 2)) for f in K.FORMATS])
     # adversarial names derived from the vocabulary (known finding F7 lives here)
-    K.parallel([(lambda f=f: K.pipeline(ctx, f, "c01names", "MC_Names", ncfg, "J_C01", nontrivial_value, workers=5,
+    K.parallel([(lambda f=f: K.pipeline(ctx, f, "c01names", "MC_Names", ncfg, "J_C01", nontrivial_value, workers=5, extra_cmds=swap_symmetric,
                                         shards=6 if ctx.tier == "thorough" else 3)) for f in K.FORMATS])
     # M7: deeply nested and long values from the term-builder machine, TLC simulation mode
     dcfg = ("SPECIFICATION Spec\n" + consts(MAXD=64, LONGN=60) + "INVARIANT Emit\nINVARIANT ModelRoundTrip\nCHECK_DEADLOCK FALSE\n")
@@ -484,6 +500,7 @@ def garbage_plan(K, ctx, prop):
            "INVARIANT WindowsOK\nINVARIANT StepsAdvance\nINVARIANT AcceptedIsWF\nINVARIANT SideDoorsWF\nINVARIANT LexWindowOK\nINVARIANT LexLengthOK\nINVARIANT Emit\nCHECK_DEADLOCK FALSE\n")
     cfg_fold = ("SPECIFICATION Spec\n" + consts(TIER=f'"{ctx.tier}"', SEEDS=16, SEED=ctx.seed) +
                 "INVARIANT AcceptedIsWF\nINVARIANT Emit\nCHECK_DEADLOCK FALSE\n")
+    cfg_sugar = ("SPECIFICATION Spec\n" + consts(TIER=f'"{ctx.tier}"', SEEDS=16, SEED=ctx.seed) + "INVARIANT Emit\nCHECK_DEADLOCK FALSE\n")
     ndrive = 6000 if quick else 150000
 
     def nontrivial(c):
@@ -513,6 +530,10 @@ def garbage_plan(K, ctx, prop):
             K.run_mc(ctx, "MC_Garbage", cfg, fmt, f"garbage_{fmt}_mc", cmds, workers=5, timeout=7200)
             if prop in ("C05", "C12"):
                 K.run_mc(ctx, "MC_FoldAny", cfg_fold, fmt, f"foldany_{fmt}_mc", cmds, workers=4)
+            # accepted inputs that only hand-written text contains: the sugar texts of C10 (several placeholders, raw intervals, derived
+            # copulas, duplicated set components) - whatever the parsers return for them must be well-formed too
+            K.run_mc(ctx, "MC_C10", cfg_sugar, fmt, f"sugar_{fmt}_mc", cmds, workers=4,
+                     transform=lambda c: {"op": "parse_any", "fmt": c["fmt"], "s": c["s"]})
             lines = sorted(set(x for x in open(cmds, encoding="utf-8").read().split("\n") if x))
             open(cmds, "w", encoding="utf-8").write("".join(l + "\n" for l in lines))
             add_drive(cmds, fmt)
@@ -566,7 +587,7 @@ def garbage_plan(K, ctx, prop):
 # ------------------------------------------------------------------------------------------------ C06 / C07
 def eqhash_plan(K, ctx, prop):
     quick = ctx.tier == "quick"
-    reps = 4 if quick else 5
+    reps = 4
     cfg = ("SPECIFICATION Spec\n" + consts(DEPTH=2, TIER=f'"{ctx.tier}"', SEEDS=16, SEED=ctx.seed, ORDERED_HASH="FALSE") +
            "INVARIANT EqIsSemantic\nINVARIANT EqSymmetric\nINVARIANT EqReflexive\nINVARIANT EqualHashEqual\nINVARIANT Emit\nCHECK_DEADLOCK FALSE\n")
     rnd = random.Random(ctx.seed)
@@ -799,6 +820,7 @@ def plan_c03(K, ctx):
             K.run_mc(ctx, "MC_Deep", dcfg, fmt, f"c03_{fmt}_deep_mc", cmds, workers=4, transform=to_pipe_v, simulate=(3 if quick else 30, 66))
             lines = sorted(set(x for x in open(cmds, encoding="utf-8").read().split("\n") if x))
             open(cmds, "w", encoding="utf-8").write("".join(l + "\n" for l in lines))
+            swap_symmetric(cmds, fmt)
             K.account(ctx, cmds, lambda c: c["op"] == "pipe" or nontrivial_value(c))
             K.run_exec(ctx, cmds, obs)
             K.run_judge(ctx, "J_Pipe", fmt, obs, f"c03_{fmt}_judge", shards=3 if quick else 6)
